@@ -50,7 +50,7 @@ def hb(b):
 
 def hs(s):
     """text as hex of UTF-8; lone surrogates are outside the model and must not get here"""
-    return hb(s.encode('utf8'))
+    return hb(s.encode('utf8', 'surrogatepass'))   # a faulty tree may hand back lone surrogates: the harness must not crash
 
 
 def unhb(s):
@@ -240,21 +240,27 @@ def run_driver_sharded(lines, shards=8, timeout=3600, min_lines=4000):
 # --------------------------------------------------------------------------------------
 # watchdog for implementation calls
 
-class Hang(Exception):
-    pass
+class Hang(BaseException):
+    """raised by the watchdog inside an implementation call.  A BaseException on purpose: neither the framework's own
+    `except Exception` clauses (catch-all 500) nor a harness's generic error handling may swallow it -- once swallowed the
+    one-shot timer is spent and a spinning call would never be stopped."""
 
 
 def with_timeout(fn, seconds=5):
     """Watchdog for an implementation call.  The budget is PROCESS CPU TIME (ITIMER_PROF), so a
     loaded machine cannot turn a slow-but-terminating call into a false "hang"; a spinning loop
     burns CPU and is stopped after `seconds` of it.  A generous wall-clock alarm remains as a
-    backstop for calls that block without using CPU."""
+    backstop for calls that block without using CPU.  Calls may nest: an outer budget keeps
+    running (minus the CPU the inner call used) after an inner watchdog has finished."""
     def _h(sig, frm):
         raise Hang()
+    outer_left = signal.getitimer(signal.ITIMER_PROF)[0]
+    t0 = time.process_time()
     old_prof = signal.signal(signal.SIGPROF, _h)
     old_alrm = signal.signal(signal.SIGALRM, _h)
-    signal.setitimer(signal.ITIMER_PROF, float(seconds))
-    signal.alarm(int(max(120, seconds * 40)))
+    budget = float(seconds) if outer_left <= 0 else min(float(seconds), outer_left)
+    signal.setitimer(signal.ITIMER_PROF, max(budget, 0.01))
+    outer_alarm = signal.alarm(int(max(120, seconds * 40)))
     try:
         return fn()
     finally:
@@ -262,6 +268,10 @@ def with_timeout(fn, seconds=5):
         signal.alarm(0)
         signal.signal(signal.SIGPROF, old_prof)
         signal.signal(signal.SIGALRM, old_alrm)
+        if outer_left > 0:     # re-arm the enclosing watchdog with what is left of its budget
+            signal.setitimer(signal.ITIMER_PROF, max(outer_left - (time.process_time() - t0), 0.01))
+        if outer_alarm:
+            signal.alarm(outer_alarm)
 
 
 # --------------------------------------------------------------------------------------
@@ -390,7 +400,12 @@ def run_check(chk, tier, seed):
     disagreements = []
     driver_ok = True
     try:
-        corr_cases = chk.corr(rng, n)
+        # global safety net: no stream may spin for ever (each stream has its own per-call watchdogs; this one only
+        # turns a hang the streams missed into an infrastructure failure instead of a check that never returns)
+        try:
+            corr_cases = with_timeout(lambda: chk.corr(rng, n), 2400 if tier == 'quick' else 7200)
+        except Hang:
+            raise Infra('the correspondence stage did not finish within its CPU budget (a call without a watchdog spins?)')
         lines = [c[0] for c in corr_cases]
         if lines:
             # the driver is only usable when the model library builds
@@ -411,7 +426,11 @@ def run_check(chk, tier, seed):
     # stage 4: search (always; large budget when something above broke)
     sbudget = chk.budget(tier, escalated or not corr_ok)
     seeds = [d['sample'] for d in disagreements[:200]]
-    evals, findings = chk.search(rng, sbudget if (proof_ok and corr_ok) else sbudget * 5, seeds)
+    try:
+        evals, findings = with_timeout(lambda: chk.search(rng, sbudget if (proof_ok and corr_ok) else sbudget * 5, seeds),
+                                       2400 if tier == 'quick' else 7200)
+    except Hang:
+        raise Infra('the search stage did not finish within its CPU budget (a call without a watchdog spins?)')
 
     # stage 5: verdict
     new, old = [], []
@@ -505,6 +524,10 @@ def main(registry, argv):
         return 2
     except subprocess.TimeoutExpired as e:
         print(f'INFRA-TIMEOUT {a.pid}: {e}', file=sys.stderr)
+        return 2
+    except Hang:
+        print(f'INFRA-HANG {a.pid}: a watchdog fired outside any handler', file=sys.stderr)
+        traceback.print_exc()
         return 2
     except Exception:
         traceback.print_exc()
